@@ -319,3 +319,25 @@ contract(
     ensures=["self.df_features is df_features and self.sig is sig", "same(self.fs, fs) and same(self.f_range, f_range)"],
     modifies=['self'],
 )
+
+
+# ------------------------------------------------------------------------------------------------ Bycycle.__getattr__ (C14)
+def _getattr_cases():
+    cols = {'period': INT, 'volt_amp': XR, 'is_burst': BOOL}
+    out = []
+    for col in cols:
+        out.append(dict(label='column:%s' % col,
+                        params={'self': ('obj', 'bycycle.objs.fit.Bycycle', {'df_features': ('frame', cols)}), 'key': ('const', col)},
+                        # C14: attribute access returns the table's column (its values, in order)
+                        ensures=["len(result) == len(self.df_features)",
+                                 "forall(i, 0 <= i < len(result), same(result[i], self.df_features['%s'][i]))" % col]))
+    out.append(dict(label='no-such-column',
+                    params={'self': ('obj', 'bycycle.objs.fit.Bycycle', {'df_features': ('frame', cols)}), 'key': ('const', 'no_such_column')},
+                    raises={'AttributeError': 'True'}))
+    out.append(dict(label='unfitted',
+                    params={'self': ('obj', 'bycycle.objs.fit.Bycycle', {'df_features': 'none'}), 'key': ('const', 'period')},
+                    raises={'AttributeError': 'True'}))
+    return out
+
+
+contract('bycycle.objs.fit.Bycycle.__getattr__', cases=_getattr_cases(), modifies=[])
